@@ -40,7 +40,10 @@ OptsQuick == {[minf |-> 0, filter |-> "no-filter", ambigMissing |-> FALSE, ambig
               [minf |-> 0, filter |-> "no-filter", ambigMissing |-> TRUE, ambigMask |-> TRUE, noGapOnly |-> FALSE],
               [minf |-> 2, filter |-> "no-ambig", ambigMissing |-> FALSE, ambigMask |-> TRUE, noGapOnly |-> FALSE],
               [minf |-> 1, filter |-> "no-ambig-or-const", ambigMissing |-> TRUE, ambigMask |-> FALSE, noGapOnly |-> FALSE]}
-Opts == IF OptSet = "all" THEN OptsAll ELSE OptsQuick
+OptsMid == OptsQuick \cup
+   {[minf |-> mf, filter |-> fl, ambigMissing |-> am, ambigMask |-> FALSE, noGapOnly |-> FALSE] :
+      mf \in {0, 2}, fl \in {"no-ambig", "no-ambig-or-const"}, am \in BOOLEAN}
+Opts == IF OptSet = "all" THEN OptsAll ELSE IF OptSet = "mid" THEN OptsMid ELSE OptsQuick
 
 ThrOf(o, n) == [thr |-> (n * o.minf) \div 2, filter |-> o.filter, ambigMissing |-> o.ambigMissing,
                 ambigMask |-> o.ambigMask, noGapOnly |-> o.noGapOnly]
